@@ -56,6 +56,36 @@ Theorem C06_gen_t_test_0_monotone : forall (cdf : R -> R) (e1 e2 v : R), (forall
 Proof. exact gen_t_test_0_monotone. Qed.
 Print Assumptions C06_gen_t_test_0_monotone.
 
+(* two-sided t-test against the noise ceiling, as generated from the loop body of t_test_nc: entry i is
+   2 * (1 - cdf |(evaluation_i - ceiling) / sqrt(max(variance_i, eps))|); in [0,1]; 1 at the ceiling; the same below and
+   above the ceiling; never larger further away *)
+Theorem C06_gen_t_test_nc_is_model : forall (cdf : R -> R) (ev var : list R) (nc : R),
+  map2 (fun m v => Gen_C06.t_test_nc_entry ROps cdf m v nc (feps ROps)) ev var = map (p_two cdf) (t_nc ROps ev var nc).
+Proof. exact t_test_nc_tie. Qed.
+Print Assumptions C06_gen_t_test_nc_is_model.
+
+Theorem C06_gen_t_test_nc_range : forall (cdf : R -> R) (m v nc : R),
+  (forall x y, x <= y -> cdf x <= cdf y) -> (forall x, 0 <= cdf x <= 1) -> (forall x, cdf (- x) = 1 - cdf x) ->
+  0 <= Gen_C06.t_test_nc_entry ROps cdf m v nc (feps ROps) <= 1.
+Proof. exact gen_t_test_nc_range. Qed.
+Print Assumptions C06_gen_t_test_nc_range.
+
+Theorem C06_gen_t_test_nc_at_ceiling : forall (cdf : R -> R) (v nc : R), (forall x, cdf (- x) = 1 - cdf x) ->
+  Gen_C06.t_test_nc_entry ROps cdf nc v nc (feps ROps) = 1.
+Proof. exact gen_t_test_nc_at_ceiling. Qed.
+Print Assumptions C06_gen_t_test_nc_at_ceiling.
+
+Theorem C06_gen_t_test_nc_symmetric : forall (cdf : R -> R) (d v nc : R),
+  Gen_C06.t_test_nc_entry ROps cdf (nc - d) v nc (feps ROps) = Gen_C06.t_test_nc_entry ROps cdf (nc + d) v nc (feps ROps).
+Proof. exact gen_t_test_nc_symmetric. Qed.
+Print Assumptions C06_gen_t_test_nc_symmetric.
+
+Theorem C06_gen_t_test_nc_antitone : forall (cdf : R -> R) (d1 d2 v nc : R), (forall x y, x <= y -> cdf x <= cdf y) ->
+  Rabs d1 <= Rabs d2 ->
+  Gen_C06.t_test_nc_entry ROps cdf (nc + d2) v nc (feps ROps) <= Gen_C06.t_test_nc_entry ROps cdf (nc + d1) v nc (feps ROps).
+Proof. exact gen_t_test_nc_antitone. Qed.
+Print Assumptions C06_gen_t_test_nc_antitone.
+
 (* non-vacuity on the executable instance: n_rdm = 3, n_pattern = 4, (v0, v1, v2) = (10, 3, 4) *)
 Example C06_gen_example :
   Gen_C06.dual_bootstrap QOps 10%Q 3%Q 4%Q (Some 3%Z) (Some 4%Z) = (16 # 3)%Q.
